@@ -20,8 +20,8 @@ LEVEL_TEXT = ('Partial (full for the algorithm in exact arithmetic, under two st
               'correspondence and by evaluating the conclusions on the real models over dt/tau in [1e-6, 1e6].')
 TECHNIQUE = 'Coq proof (Reals) over kernels regenerated from the Python AST, opaque spectral functions as parameters; vm_compute/PrimFloat correspondence'
 GEN = ['TensorMath', 'HyperViscoelastic', 'MultiBranchHyperViscoelastic', 'ViscoState']
-TARGETS = ['model/M_C11.vo', 'proofs/L_C11a.vo', 'proofs/L_C11.vo']
-COQ_FILES = ['base/Num.v', 'model/M_C08.v', 'model/M_C11.v', 'proofs/L_C11a.v', 'proofs/L_C11.v', 'props/P_C11.v']
+TARGETS = ['model/M_C11.vo', 'model/M_C11s.vo', 'proofs/L_C11a.vo', 'proofs/L_C11.vo', 'proofs/L_C11s.vo', 'proofs/L_C11t.vo']
+COQ_FILES = ['base/Num.v', 'model/M_C08.v', 'model/M_C11.v', 'model/M_C11s.v', 'proofs/L_C11a.v', 'proofs/L_C11.v', 'proofs/L_C11s.v', 'proofs/L_C11t.v', 'props/P_C11.v']
 TRUSTED = ['Coq 8.16.1 kernel + vm_compute (no native_compute)',
            'tools/vlib/py2coq.py translator (Python ast -> Gallina over Num T), cross-checked by running the generated kernels at binary64 against the implementation',
            'hand composition of the generated per-branch kernels for the three-branch loops (model/M_C11.v, model/M_C08.v), tied by the same comparison',
@@ -36,7 +36,7 @@ RULE = ('cases: random positive moduli and relaxation times over four decades, d
         'L1: random (H, Fv, dt) with non-virgin states; L2: multi-step random deformation histories followed by held segments, and step-size sweeps on a '
         'virgin material.  Non-trivial = deformation with a deviatoric logarithmic strain above 1e-3; distinct = distinct (model, properties, history) tuples')
 IMPORTS = ['From OV.gen Require Import Gen_TensorMath Gen_HyperViscoelastic Gen_MultiBranchHyperViscoelastic Gen_ViscoState.',
-           'From OV.model Require Import M_C08 M_C11.']
+           'From OV.model Require Import M_C08 M_C11 M_C11s.']
 
 
 # ----------------------------------------------------------------------------- helpers
@@ -129,6 +129,11 @@ def step_fn(nb):
 def l1(ctx, model_ok):
     import numpy as np
     import jax.numpy as jnp
+    if not model_ok:
+        # nothing to compare with: this stream ties the generated per-branch kernels to the PRIVATE helper functions they were
+        # translated from; when the models cannot be regenerated (e.g. a helper was renamed) those helpers may not exist any more
+        ctx.notes.append('kernel-level correspondence (L1) skipped: the generated models are not available')
+        return
     r = ctx.rng('l1')
     exprs, want, info = [], [], []
     for k in range(ctx.n(40, 400)):
@@ -168,8 +173,6 @@ def l1(ctx, model_ok):
         want.append([D3] + Fn3.ravel().tolist())
         info.append(dict(model='MultiBranchHyperViscoelastic', props=p3, dt=dt3, H=H.tolist(), Fv=[f.tolist() for f in Fvs], scale=max(p3)))
         ctx.count('evaluations', 2)
-    if not model_ok:
-        return
     res = C.coq_eval(IMPORTS, exprs, 'C11', shard=40, timeout=900)
     mism = 0
     for zs, ws, inf in zip(res, want, info):
@@ -185,89 +188,315 @@ def l1(ctx, model_ok):
     ctx.count('model_vs_impl_mismatches', mism)
 
 
-# ----------------------------------------------------------------------------- L2: conclusions on the real models
-def run_history(ctx, nb, props, steps, label):
-    """steps: list of (F, dt, held) ; evaluates dissipation >= 0, |det Fv - 1|, Hexp, and on held steps Hcoax + monotone decay with the exact factor"""
+# ----------------------------------------------------------------------------- L1s: the spectral tensor functions of model/M_C11s.v
+def ceig(w, V):
+    return '(fun _ => ((%s, %s, %s), %s))' % (C.cf(float(w[0])), C.cf(float(w[1])), C.cf(float(w[2])), cm(V))
+
+
+def contract_gap(A, w, V):
+    """how far (w, V) is from the contract eigh_ok of proofs/L_C11s.v at A: V^T V = V V^T = I and V diag(w) V^T = A"""
+    import numpy as np
+    I = np.eye(3)
+    return max(float(np.abs(V.T @ V - I).max()), float(np.abs(V @ V.T - I).max()),
+               float(np.abs((V * w) @ V.T - A).max()) / max(1.0, float(np.abs(A).max())))
+
+
+def l1_spectral(ctx, model_ok):
+    """ties the hand model `spectral` (V diag(f(lam)) V^T) to the two functions it stands for:
+    TensorMath.log_sqrt_symm with the eigen-pairs of TensorMath.eigen_sym33_unit as the oracle (same formula, rounding only), and
+    jax.scipy.linalg.expm on viscous increments with numpy's eigh as the oracle (different algorithm: Pade approximant with scaling and
+    squaring; equal to the spectral exponential up to rounding).  The contract eigh_ok is evaluated on every oracle value."""
     import numpy as np
     import jax.numpy as jnp
-    fn = step_fn(nb)
+    from jax.scipy import linalg as jlinalg
+    from optimism import TensorMath
+    if not model_ok:
+        return
+    import jax
+    if 'spectral' not in _JIT:
+        _JIT['spectral'] = (jax.jit(TensorMath.eigen_sym33_unit), jax.jit(TensorMath.log_sqrt_symm), jax.jit(jlinalg.expm))
+    f_eig, f_lss, f_exp = _JIT['spectral']
+    r = ctx.rng('l1s')
+    exprs, want, info = [], [], []
+    worst = 0.0
+    for k in range(ctx.n(30, 300)):
+        F = rand_F(r) @ np.linalg.inv(rand_F(r, 0.3)) if k % 3 else rand_F(r)      # an elastic trial deformation F Fv^-1
+        Cmat = F.T @ F
+        lam, V = (np.asarray(x) for x in f_eig(jnp.array(Cmat)))
+        L = np.asarray(f_lss(jnp.array(Cmat)))
+        g1 = contract_gap(Cmat, lam, V)
+        fct = 10 ** r.uniform(-6, 0)
+        dE = fct * dev3(0.5 * (L + L.T))                                          # a viscous increment: multiple of the deviator of the strain
+        w, Vn = np.linalg.eigh(dE)
+        X = np.asarray(f_exp(jnp.array(dE)))
+        g2 = contract_gap(dE, w, Vn)
+        worst = max(worst, g1, g2)
+        ctx.count('eigh_contract_evaluated', 2)
+        if g1 > 1e-9:
+            ctx.fail('correspondence', 'TensorMath.eigen_sym33_unit violates the eigen-decomposition contract (V^T V = V V^T = I, V diag(lam) V^T = C) by %.3g' % g1,
+                     case=dict(part='spectral', C=Cmat.tolist(), lam=lam.tolist(), V=V.tolist()))
+        exprs.append('fencs (%s (lss_spec %s %s) ++ %s (expm_spec %s %s))' % (MAT9, ceig(lam, V), cm(Cmat), MAT9, ceig(w, Vn), cm(dE)))
+        want.append(L.ravel().tolist() + X.ravel().tolist())
+        info.append(dict(part='spectral', C=Cmat.tolist(), dE=dE.tolist(), scale=max(1.0, float(np.abs(L).max()))))
+        ctx.count('evaluations', 2)
+    ctx.cov['eigh_contract_worst_gap'] = worst
+    res = C.coq_eval(IMPORTS, exprs, 'C11s', shard=100, timeout=900)
+    mism = 0
+    for zs, ws, inf in zip(res, want, info):
+        got = C.dec_floats(zs)
+        ctx.count('spectral_model_vs_impl_comparisons', len(ws))
+        for i, (g, w) in enumerate(zip(got, ws)):
+            # log_sqrt_symm: same formula as the model, rounding of a 3-term sum of products of O(scale) terms (the model's ln is a few-ulp
+            # approximation); expm: a different algorithm, both accurate to rounding for these well-conditioned symmetric arguments
+            if not C.close(g, w, rtol=1e-11, atol=2e-13 * inf['scale']):
+                mism += 1
+                if mism <= 10:
+                    ctx.fail('correspondence', 'spectral model of %s: entry %d = %r but the implementation gives %r'
+                             % ('TensorMath.log_sqrt_symm' if i < 9 else 'jax.scipy.linalg.expm', i % 9, g, w), case=dict(inf, output=i, model_value=g, impl=w))
+    ctx.count('spectral_model_vs_impl_mismatches', mism)
+
+
+# ----------------------------------------------------------------------------- L2: conclusions on the real models
+# Everything below talks to the material models ONLY through their public interface: create_material_model_functions(properties)
+# and the MaterialModel it returns (compute_initial_state, compute_energy_density, compute_state_new, compute_material_qoi).
+# The per-branch quantities the theorems speak about (trial strain, increment, stored branch energy) are re-evaluated
+# independently with numpy from the viscous distortions that compute_state_new returned.
+_PUB = {}
+_INIT = {}
+DT_INF_FACTOR = 1e30      # energy_density(dt) - qoi(dt) at dt = 1e30 * tau_max is the equilibrium energy to 1e-60 (C11_bound_large_step)
+
+
+def prop_dict(nb, p):
+    d = {'equilibrium bulk modulus': p[0], 'equilibrium shear modulus': p[1]}
+    if nb == 1:
+        d['non equilibrium shear modulus'] = p[2]
+        d['relaxation time'] = p[3]
+    else:
+        for n in range(nb):
+            d['non equilibrium shear modulus %d' % (n + 1)] = p[2 + 2 * n]
+            d['relaxation time %d' % (n + 1)] = p[3 + 2 * n]
+    return d
+
+
+def pub_module(nb):
+    from optimism.material import HyperViscoelastic as HV, MultiBranchHyperViscoelastic as MB
+    return HV if nb == 1 else MB
+
+
+def make_model(nb, p):
+    import contextlib
+    import io
+    with contextlib.redirect_stdout(io.StringIO()):
+        return pub_module(nb).create_material_model_functions(prop_dict(nb, p))
+
+
+def initial_state(nb):
+    if nb not in _INIT:
+        import numpy as np
+        _INIT[nb] = np.asarray(make_model(nb, [1.0] * (2 + 2 * nb)).compute_initial_state())
+    return _INIT[nb]
+
+
+def pub_fn(nb):
+    """one jitted function per model class; the properties are an argument (the factory is called while tracing), so that one
+    compilation serves every property set.  Returns what the model reports for one step:
+    dissipated energy, energy density, equilibrium energy (energy - dissipation at an effectively infinite step), new state."""
+    if nb in _PUB:
+        return _PUB[nb]
+    import jax
+
+    def f(H, state, dt, dt_inf, p):
+        m = make_model(nb, [p[i] for i in range(2 + 2 * nb)])
+        W = m.compute_energy_density(H, state, dt)
+        D = m.compute_material_qoi(H, state, dt)
+        new = m.compute_state_new(H, state, dt)
+        Weq = m.compute_energy_density(H, state, dt_inf) - m.compute_material_qoi(H, state, dt_inf)
+        return D, W, Weq, new
+    _PUB[nb] = jax.jit(f)
+    return _PUB[nb]
+
+
+def dev3(A):
+    import numpy as np
+    return A - np.trace(A) / 3.0 * np.eye(3)
+
+
+def log_spd(A):
+    import numpy as np
+    w, V = np.linalg.eigh(0.5 * (A + A.T))
+    return (V * np.log(w)) @ V.T
+
+
+def ind_branch(F, Fv, dt, G, tau):
+    """independent (numpy) evaluation of the trial logarithmic strain, the backward-Euler increment and the stored branch energy
+    G |dev(Ee_trial - delta_Ev)|^2 that the theorems call Wneq_reported"""
+    import numpy as np
+    Fe = F @ np.linalg.inv(Fv)
+    Ee = 0.5 * log_spd(Fe.T @ Fe)
+    f = 1.0 / (1.0 + dt / tau)
+    dE = dt * f * dev3(Ee) / tau
+    Wn = G * float((dev3(Ee - dE) ** 2).sum())
+    return Ee, dE, Wn
+
+
+def eq_energy_ind(F, K, G):
+    import numpy as np
+    J = float(np.linalg.det(F))
+    return 0.5 * G * (J ** (-2.0 / 3.0) * float((F * F).sum()) - 3.0) + 0.5 * K * (0.5 * J * J - 0.5 - math.log(J))
+
+
+# order in which the failures of one history are reported (the clauses of the property first, then the diagnostics)
+CLAUSE_ORDER = ['dissipation', 'isochoric', 'relaxation', 'relaxation-independent', 'non-finite', 'relaxation-factor', 'stored-energy',
+                'Hcoax', 'state-update', 'deviatoric', 'Hexp', 'dissipation-closed-form', 'equilibrium-energy']
+
+
+def run_history(ctx, nb, props, steps, label):
+    import numpy as np
+    with np.errstate(all='ignore'):      # a broken model may return garbage; that is reported as a failed clause, not as numpy warnings
+        return _run_history(ctx, nb, props, steps, label)
+
+
+def _run_history(ctx, nb, props, steps, label):
+    """steps: list of (F, dt, held).  Public interface only.  Evaluates on every step: dissipation >= 0 (and its closed form),
+    |det Fv - 1|, hypothesis Hexp, the state update (increment recovered from Fv_new Fv_old^-1: trace-free, equal to the
+    backward-Euler increment of the independently evaluated trial strain); the stored non-equilibrium energy the model reports
+    (energy - dissipation - equilibrium energy) against the independent evaluation; and on held steps hypothesis Hcoax, monotone
+    decay of the reported total and of every independently evaluated branch energy, with the exact factor fac^2."""
+    import numpy as np
+    import jax.numpy as jnp
+    from jax.scipy import linalg as jlinalg
+    fn = pub_fn(nb)
     pj = jnp.array(props)
-    state = jnp.array(np.hstack([np.eye(3).ravel()] * nb))
-    prev = None          # per branch: (reported W_neq, trial strain, increment) of the previous step
-    case = dict(part='history', model=label, props=props, steps=[(np.asarray(F).tolist(), dt, held) for F, dt, held in steps])
+    Gs = [props[2 + 2 * n] for n in range(nb)]
+    taus = [props[3 + 2 * n] for n in range(nb)]
+    dt_inf = DT_INF_FACTOR * max(taus)
+    state = jnp.array(initial_state(nb))
+    prev = None          # (F, reported total W_neq, its cancellation tolerance, per branch (independent W_neq, trial strain, increment))
+    case = dict(part='history', model=label, props=list(props), steps=[(np.asarray(F).tolist(), dt, held) for F, dt, held in steps])
+    found = []
+
+    def bad(clause, what, step):
+        found.append((CLAUSE_ORDER.index(clause), len(found), what, dict(case, step=step, clause=clause)))
+
     for k, (F, dt, held) in enumerate(steps):
+        F = np.asarray(F, dtype=float)
         H = jnp.array(F - np.eye(3))
         ctx.count('evaluations')
-        D, _, _, new_state, br = fn(H, state, dt, pj)
-        D = float(D)
+        D, W, Weq, new_state = fn(H, state, dt, dt_inf, pj)
+        D, W, Weq = float(D), float(W), float(Weq)
+        old = np.asarray(state)
+        new = np.asarray(new_state)
+        if not (np.isfinite([D, W, Weq]).all() and np.isfinite(new).all()):
+            bad('non-finite', '%s: step %d (dt=%r): the model returns a non-finite energy, dissipation or state (D=%r, W=%r, W_eq=%r)' % (label, k, dt, D, W, Weq), k)
+            break
         if not (D >= 0.0):
-            ctx.fail('conclusion', '%s: dissipated energy %r < 0 at step %d (dt=%r)' % (label, D, k, dt), case=dict(case, step=k, clause='dissipation'), concrete=True)
-        cur = []
+            bad('dissipation', '%s: dissipated energy %r < 0 at step %d (dt=%r)' % (label, D, k, dt), k)
+        Wrep = W - D - Weq                                       # stored non-equilibrium energy as the model reports it
+        ctol = 8e-15 * (abs(W) + abs(D) + abs(Weq)) + 1e-13 * sum(Gs)   # cancellation in the difference above
+        Weq_i = eq_energy_ind(F, props[0], props[1])
+        if abs(Weq - Weq_i) > 1e-9 * abs(Weq_i) + 1e-12 * max(props):
+            bad('equilibrium-energy', '%s: step %d: energy at dt -> infinity minus dissipation = %r but the equilibrium hyperelastic energy is %r' % (label, k, Weq, Weq_i), k)
+        cur, Wsum, Dsum = [], 0.0, 0.0
+        dets = [float(np.linalg.det(x[9 * n:9 * n + 9].reshape(3, 3))) for x in (old, new) for n in range(nb)]
+        if not all(1e-3 < d < 1e3 for d in dets) or max(float(np.abs(old).max()), float(np.abs(new).max())) > 1e6:
+            # far outside anything an isochoric viscous distortion can be: stop before the independent evaluation degenerates
+            bad('isochoric', '%s: step %d (dt=%r): viscous distortion degenerate (determinants of the old/new branch distortions %s, largest entry %.3g)'
+                % (label, k, dt, ['%.3g' % d for d in dets], max(float(np.abs(old).max()), float(np.abs(new).max()))), k)
+            break
         for n in range(nb):
-            G, tau = props[2 + 2 * n], props[3 + 2 * n]
-            Ee, dE, W, ex = (np.asarray(x) for x in br[n])
-            W = float(W)
+            G, tau = Gs[n], taus[n]
+            Fv = old[9 * n:9 * n + 9].reshape(3, 3)
+            Fvn = new[9 * n:9 * n + 9].reshape(3, 3)
+            Ee, dE, Wn = ind_branch(F, Fv, dt, G, tau)
+            f = 1.0 / (1.0 + dt / tau)
+            Wsum += Wn
+            Dsum += G * float((dev3(Ee) ** 2).sum()) * (dt / tau) * f * f
+            sc = max(1.0, float(np.abs(Ee).max()))
+            ex = np.asarray(jlinalg.expm(jnp.array(dE)))
             if abs(np.linalg.det(ex) - math.exp(float(np.trace(dE)))) > 1e-10:
-                ctx.fail('conclusion', '%s: det(expm(delta_Ev)) = %r differs from exp(tr) (hypothesis Hexp)' % (label, float(np.linalg.det(ex))),
-                         case=dict(case, step=k, clause='Hexp'), concrete=True)
-            if abs(float(np.trace(dE))) > 1e-12 * max(1.0, float(np.abs(dE).max())):
-                ctx.fail('conclusion', '%s: state increment of branch %d is not trace-free' % (label, n), case=dict(case, step=k, clause='deviatoric'), concrete=True)
-            Fvn = np.asarray(new_state[9 * n:9 * n + 9]).reshape(3, 3)
+                bad('Hexp', '%s: det(expm(delta_Ev)) = %r differs from exp(tr) (hypothesis Hexp)' % (label, float(np.linalg.det(ex))), k)
             if abs(np.linalg.det(Fvn) - 1.0) > 1e-9:
-                ctx.fail('conclusion', '%s: det Fv of branch %d = %r after step %d (dt/tau=%.3g)' % (label, n, float(np.linalg.det(Fvn)), k, dt / tau),
-                         case=dict(case, step=k, clause='isochoric'), concrete=True)
-            if held and prev is not None:
-                Wp, Ep, dEp = prev[n]
-                gap = float(np.abs(Ee - (Ep - dEp)).max())
-                sc = max(1.0, float(np.abs(Ep).max()))
+                bad('isochoric', '%s: det Fv of branch %d = %r after step %d (dt/tau=%.3g)' % (label, n, float(np.linalg.det(Fvn)), k, dt / tau), k)
+            # the increment the model applied, recovered from the states: expm(delta_Ev) = Fv_new Fv_old^-1
+            A = Fvn @ np.linalg.inv(Fv)
+            wA = np.linalg.eigvalsh(0.5 * (A + A.T))
+            if wA.min() > 0.0:
+                dE_rec = log_spd(A)
+                if abs(float(np.trace(dE_rec))) > 1e-10 * sc:
+                    bad('deviatoric', '%s: state increment of branch %d (recovered from Fv_new Fv_old^-1) has trace %.3g at step %d'
+                        % (label, n, float(np.trace(dE_rec)), k), k)
+                gap = float(np.abs(dE_rec - dE).max())
                 if gap > 2e-8 * sc:
-                    ctx.fail('conclusion', '%s: held step %d, branch %d: trial strain differs from the relaxed strain by %.3g (hypothesis Hcoax)' % (label, k, n, gap),
-                             case=dict(case, step=k, clause='Hcoax'), concrete=True)
-                f = 1.0 / (1.0 + dt / tau)
+                    bad('state-update', '%s: step %d, branch %d: the applied viscous increment log(Fv_new Fv_old^-1) differs by %.3g from '
+                        'dt fac dev(Ee_trial)/tau of the trial strain of (F, Fv_old) (dt/tau=%.3g)' % (label, k, n, gap, dt / tau), k)
+            else:
+                bad('state-update', '%s: step %d, branch %d: Fv_new Fv_old^-1 is not a symmetric positive definite matrix' % (label, k, n), k)
+            if held and prev is not None and np.array_equal(prev[0], F):
+                Wp, Ep, dEp = prev[3][n]
+                gap = float(np.abs(Ee - (Ep - dEp)).max())
+                if gap > 2e-8 * max(1.0, float(np.abs(Ep).max())):
+                    bad('Hcoax', '%s: held step %d, branch %d: trial strain differs from the relaxed strain by %.3g (hypothesis Hcoax)' % (label, k, n, gap), k)
                 tol = 1e-7 * max(Wp, 1e-300) + 1e-13 * G
-                if W > Wp + tol:
-                    ctx.fail('conclusion', '%s: stored non-equilibrium energy of branch %d grew from %r to %r while the deformation was held (dt/tau=%.3g)'
-                             % (label, n, Wp, W, dt / tau), case=dict(case, step=k, clause='relaxation'), concrete=True)
-                if abs(W - f * f * Wp) > tol + 1e-6 * f * f * Wp:
-                    ctx.fail('conclusion', '%s: held step %d, branch %d: stored energy %r is not fac^2 * previous (%r)' % (label, k, n, W, f * f * Wp),
-                             case=dict(case, step=k, clause='relaxation-factor'), concrete=True)
+                if Wn > Wp + tol:
+                    bad('relaxation-independent', '%s: stored non-equilibrium energy of branch %d (independent evaluation from the returned states) grew from %r to %r '
+                        'while the deformation was held (held step %d, dt/tau=%.3g)' % (label, n, Wp, Wn, k, dt / tau), k)
+                if abs(Wn - f * f * Wp) > tol + 1e-6 * f * f * Wp:
+                    bad('relaxation-factor', '%s: held step %d, branch %d: stored energy %r is not fac^2 * previous (%r)' % (label, k, n, Wn, f * f * Wp), k)
                 ctx.count('held_steps_checked')
-            cur.append((W, Ee, dE))
-        prev = cur
+            cur.append((Wn, Ee, dE))
+        if abs(D - Dsum) > 1e-7 * abs(Dsum) + 1e-13 * sum(Gs):
+            bad('dissipation-closed-form', '%s: step %d: reported dissipated energy %r differs from sum G|dev E_trial|^2 (dt/tau) fac^2 = %r' % (label, k, D, Dsum), k)
+        if abs(Wrep - Wsum) > 1e-7 * abs(Wsum) + ctol:
+            bad('stored-energy', '%s: step %d: reported stored non-equilibrium energy (energy - dissipation - equilibrium energy) %r differs from the '
+                'independent evaluation %r' % (label, k, Wrep, Wsum), k)
+        if held and prev is not None and np.array_equal(prev[0], F):
+            Wp, ctp = prev[1], prev[2]
+            if Wrep > Wp + 1e-7 * abs(Wp) + ctol + ctp:
+                bad('relaxation', '%s: the stored non-equilibrium energy the model reports (energy - dissipation - equilibrium energy) grew from %r to %r '
+                    'while the deformation was held (held step %d, dt=%r)' % (label, Wp, Wrep, k, dt), k)
+            ctx.count('held_steps_reported_energy_checked')
+        prev = (F, Wrep, ctol, cur)
         state = new_state
+    for _, _, what, cs in sorted(found, key=lambda t: t[:2]):
+        ctx.fail('conclusion', what, case=cs, concrete=True)
+    return len(found)
 
 
 def limits(ctx, nb, props, F, label):
     import numpy as np
     import jax.numpy as jnp
-    fn = step_fn(nb)
+    fn = pub_fn(nb)
     H = jnp.array(F - np.eye(3))
-    state = jnp.array(np.hstack([np.eye(3).ravel()] * nb))
+    state = jnp.array(initial_state(nb))
     pj = jnp.array(props)
     n2 = hencky_dev_norm2(F)
     Gs = [props[2 + 2 * n] for n in range(nb)]
     taus = [props[3 + 2 * n] for n in range(nb)]
-    case = dict(part='limits', model=label, props=props, F=np.asarray(F).tolist())
+    case = dict(part='limits', model=label, props=list(props), F=np.asarray(F).tolist())
     tmin, tmax = min(taus), max(taus)
     for e in range(-6, 7):
         for dt in (10.0 ** e * tmin, 10.0 ** e * tmax):
             ctx.count('evaluations')
-            _, W, Weq, _, _ = fn(H, state, dt, pj)
+            _, W, Weq, _ = fn(H, state, dt, DT_INF_FACTOR * tmax, pj)
             W, Weq = float(W), float(Weq)
             Winst = Weq + sum(Gs) * n2
             b0 = sum(G * n2 * dt / t for G, t in zip(Gs, taus))
             b1 = sum(G * n2 * t / dt for G, t in zip(Gs, taus))
             tol = 1e-8 * (abs(Weq) + sum(Gs) * n2) + 1e-12 * max(props)
-            if abs(W - Winst) > b0 + tol:
+            if not abs(W - Winst) <= b0 + tol:
                 ctx.fail('conclusion', '%s: |W(dt) - W_inst| = %.4g exceeds c dt/tau = %.4g at dt=%r (W_inst from an independent Hencky strain)'
                          % (label, abs(W - Winst), b0, dt), case=dict(case, dt=dt, clause='limit-instantaneous'), concrete=True)
-            if abs(W - Weq) > b1 + tol:
+            if not abs(W - Weq) <= b1 + tol:
                 ctx.fail('conclusion', '%s: |W(dt) - W_eq| = %.4g exceeds c tau/dt = %.4g at dt=%r' % (label, abs(W - Weq), b1, dt),
                          case=dict(case, dt=dt, clause='limit-equilibrium'), concrete=True)
             closed = Weq + sum(G * n2 / (1 + dt / t) for G, t in zip(Gs, taus))
-            if abs(W - closed) > tol + 1e-7 * abs(closed):
+            if not abs(W - closed) <= tol + 1e-7 * abs(closed):
                 ctx.fail('conclusion', '%s: energy %r differs from the closed form W_eq + sum G|dev E|^2/(1+dt/tau) = %r at dt=%r' % (label, W, closed, dt),
                          case=dict(case, dt=dt, clause='closed-form'), concrete=True)
+            Weq_i = eq_energy_ind(np.asarray(F), props[0], props[1])
+            if not abs(Weq - Weq_i) <= 1e-9 * abs(Weq_i) + 1e-12 * max(props):
+                ctx.fail('conclusion', '%s: energy at dt -> infinity minus dissipation = %r but the equilibrium hyperelastic energy is %r' % (label, Weq, Weq_i),
+                         case=dict(case, dt=dt, clause='equilibrium-energy'), concrete=True)
 
 
 def gen_history(r, taus):
@@ -282,9 +511,81 @@ def gen_history(r, taus):
     return steps
 
 
-def l2(ctx):
-    r = ctx.rng('l2')
+def rot_axis(axis, theta):
+    import numpy as np
+    a = np.asarray(axis, dtype=float)
+    a = a / np.linalg.norm(a)
+    Kx = np.array([[0, -a[2], a[1]], [a[2], 0, -a[0]], [-a[1], a[0], 0]])
+    return np.eye(3) + math.sin(theta) * Kx + (1 - math.cos(theta)) * (Kx @ Kx)
+
+
+def gen_rotation_history(r, taus):
+    """a load path of one to three steps that ends in a deformation with a LARGE rotation in its polar decomposition (rigid rotation of
+    50..180 degrees about a random axis superposed on a volume-preserving or general stretch, or simple shear with gamma in (2, 4],
+    rotation atan(gamma/2) > 45 degrees), applied fast compared with at least one relaxation time so that the branches store energy,
+    followed by 3..8 holds at fixed F.  Returns (steps, kind, rotation angle in degrees)."""
+    import numpy as np
+    kind = r.choice(['rotated-stretch', 'rotated-stretch', 'simple-shear'])
+    if kind == 'simple-shear':
+        gam = r.uniform(2.05, 4.0)
+        i, j = r.sample(range(3), 2)
+        F = np.eye(3)
+        F[i, j] = gam
+        if r.random() < 0.5:
+            Q = rand_rot(r)                      # same shear in a rotated frame
+            F = Q @ F @ Q.T
+        angle = math.degrees(math.atan(gam / 2))
+    else:
+        lam = math.exp(r.uniform(0.15, 0.5) * r.choice([-1, 1]))
+        mu = math.exp(r.uniform(-0.3, 0.3))
+        vol = math.exp(r.uniform(-0.2, 0.2)) if r.random() < 0.5 else 1.0
+        d = np.array([lam, mu / lam, 1.0 / mu]) * vol ** (1.0 / 3.0)
+        Q = rand_rot(r) if r.random() < 0.5 else np.eye(3)
+        U = Q @ np.diag(d) @ Q.T
+        theta = math.radians(r.uniform(50.0, 180.0))
+        axis = [r.gauss(0, 1) for _ in range(3)] if r.random() < 0.5 else [0.0, 0.0, 1.0]
+        F = rot_axis(axis, theta) @ U
+        angle = math.degrees(theta)
+    steps = []
+    nload = r.randrange(1, 4)
+    tau = r.choice(taus)
+    for i in range(nload):
+        s = (i + 1.0) / nload
+        Fi = np.eye(3) + s * (F - np.eye(3)) if i + 1 < nload else F
+        if np.linalg.det(Fi) <= 0.3:
+            continue
+        steps.append((Fi, 10 ** r.uniform(-3, -0.5) * tau, False))
+    for _ in range(r.randrange(3, 9)):
+        steps.append((F, 10 ** r.uniform(-1.5, 1.0) * tau, True))
+    return steps, kind, angle
+
+
+def l2_rotation(ctx, r, count):
+    """large-rotation load steps followed by holds (both models); returns the number of clause failures"""
+    nbad = 0
     keys = set()
+    for k in range(count):
+        nb = 1 if k % 2 == 0 else 3
+        props = rand_props(r, nb)
+        label = 'HyperViscoelastic' if nb == 1 else 'MultiBranchHyperViscoelastic'
+        steps, kind, angle = gen_rotation_history(r, [props[3 + 2 * n] for n in range(nb)])
+        nbad += run_history(ctx, nb, props, steps, label)
+        ctx.count('large_rotation_histories')
+        ctx.count('large_rotation_%s' % kind)
+        ctx.count('large_rotation_angle_%s' % ('45-90' if angle < 90 else '90-135' if angle < 135 else '135-180'))
+        ctx.count('large_rotation_held_steps', sum(1 for s in steps if s[2]))
+        keys.add((label, tuple(props)))
+        if k == 0:
+            ctx.sample(dict(stream='large-rotation', model=label, kind=kind, rotation_deg=angle, props=props, F=steps[-1][0].tolist(),
+                            dts=[s[1] for s in steps]))
+    return nbad, keys
+
+
+def l2(ctx):
+    keys = set()
+    _, ks = l2_rotation(ctx, ctx.rng('l2rot'), ctx.n(8, 80))
+    keys |= ks
+    r = ctx.rng('l2')
     for k in range(ctx.n(14, 150)):
         nb = 1 if k % 2 == 0 else 3
         props = rand_props(r, nb)
@@ -300,22 +601,37 @@ def l2(ctx):
 
 def correspondence(ctx, model_ok):
     import optimism  # noqa: F401
-    l1(ctx, model_ok)
+    # the conclusion streams first: they need nothing but the public interface of the models, so they still run (and name a
+    # concrete failing history) when a refactoring of the private helpers breaks the kernel-level correspondence below
     l2(ctx)
+    l1(ctx, model_ok)
+    l1_spectral(ctx, model_ok)
+
+
+CLAUSE_PRIORITY = ['relaxation', 'relaxation-independent', 'dissipation', 'isochoric', 'limit-instantaneous', 'limit-equilibrium']
 
 
 def search(ctx, reasons):
+    """directed search with the thorough budget: large-rotation load + hold histories first (the relaxation clause), then the random
+    histories and the limits; a failure of one of the clauses of the property is preferred to a failed diagnostic"""
     import copy
     import optimism  # noqa: F401
     c2 = copy.copy(ctx)
     c2.failures, c2.counts, c2.cov, c2.samples, c2.notes = [], {}, {}, [], []
     c2.tier = 'thorough'
     c2.seed = ctx.seed + 1
-    l2(c2)
-    for fl in c2.failures:
-        if fl.get('concrete'):
-            return fl
-    return None
+
+    def best():
+        conc = [fl for fl in c2.failures if fl.get('concrete')]
+        for cl in CLAUSE_PRIORITY:
+            for fl in conc:
+                if (fl.get('case') or {}).get('clause') == cl:
+                    return fl
+        return conc[0] if conc else None
+    l2_rotation(c2, c2.rng('search-rot'), 200)
+    if best() is None:
+        l2(c2)
+    return best()
 
 
 def finding_fails(ctx, f):
